@@ -5,7 +5,9 @@ import (
 	"fmt"
 	"hash/fnv"
 	"reflect"
+	"sort"
 	"strings"
+	"time"
 )
 
 var NoAttachedGoStruct = fmt.Errorf("hash has no attach Go struct")
@@ -717,7 +719,25 @@ func (h *SexpHash) FillHashFromShadow(env *Zlisp, src interface{}) error {
 	for i, det := range h.DetOrder {
 		_ = i
 		//Q("\n looking at det for %s; %v-th entry in h.DetOrder\n", det.FieldJsonTag, i)
-		goField := vaSrc.Field(det.FieldNum)
+		if det.StructField.Anonymous {
+			// an embedded struct is not a field of the record; its
+			// own fields follow in DetOrder with their embed path.
+			continue
+		}
+		// det.FieldNum is relative to the struct that declares the
+		// field: walk the embed path from the outer struct (the last
+		// element of the path is the field itself).
+		goField := vaSrc
+		if len(det.EmbedPath) > 0 {
+			for _, ep := range det.EmbedPath {
+				goField = goField.Field(ep.ChildFieldNum)
+			}
+		} else {
+			goField = vaSrc.Field(det.FieldNum)
+		}
+		if !goField.CanInterface() {
+			continue // unexported
+		}
 		val, err := fillHashHelper(goField.Interface(), 0, env, false)
 		if err != nil {
 			//Q("got err='%s' back from fillHashhelper", err)
@@ -741,8 +761,29 @@ func fillHashHelper(r interface{}, depth int, env *Zlisp, preferSym bool) (Sexp,
 
 	// check for one of our registered structs
 
+	// a nil interface, pointer, map or slice member is nil
+	// (reflect.ValueOf(nil).Type() panics: "call of reflect.Value.Type
+	// on zero Value", which made every method that returns a struct with
+	// a nil member fail).
+	if r == nil {
+		return SexpNull, nil
+	}
+	rv := reflect.ValueOf(r)
+	switch rv.Kind() {
+	case reflect.Ptr, reflect.Interface, reflect.Map, reflect.Slice:
+		if _, isBytes := r.([]byte); !isBytes && rv.IsNil() {
+			return SexpNull, nil
+		}
+	}
+
 	// go through the type registry upfront
 	for hashName, factory := range GoStructRegistry.Registry {
+		// every type is in the registry under two keys, its registered
+		// name and its reflect name; always report the registered name,
+		// not whichever key the map walk meets first.
+		if factory.RegisteredName != "" {
+			hashName = factory.RegisteredName
+		}
 		//P("fillHashHelper is trying hashName='%s'", hashName)
 		st, err := factory.Factory(env, nil)
 		if err != nil {
@@ -855,8 +896,60 @@ func fillHashHelper(r interface{}, depth int, env *Zlisp, preferSym bool) (Sexp,
 	case bool:
 		return &SexpBool{Val: val}, nil
 
+	case time.Time:
+		// times are not converted back (the suite pins time:nil)
+		return SexpNull, nil
+
 	default:
 		//Q("unknown type in type switch, val = %#v.  type = %T.\n", val, val)
+
+		// the remaining kinds the record -> Go direction can fill:
+		// typed slices, string-keyed maps, nested struct values, and
+		// the other integer and float widths.
+		switch rv.Kind() {
+		case reflect.Int8, reflect.Int16:
+			return &SexpInt{Val: rv.Int()}, nil
+		case reflect.Uint8, reflect.Uint16, reflect.Uint32:
+			return &SexpInt{Val: int64(rv.Uint())}, nil
+		case reflect.Uint, reflect.Uint64:
+			return &SexpUint64{Val: rv.Uint()}, nil
+		case reflect.Float32:
+			return &SexpFloat{Val: rv.Float()}, nil
+		case reflect.Slice, reflect.Array:
+			slice := []Sexp{}
+			for i := 0; i < rv.Len(); i++ {
+				sx2, err := fillHashHelper(rv.Index(i).Interface(), depth+1, env, preferSym)
+				if err != nil {
+					return SexpNull, err
+				}
+				slice = append(slice, sx2)
+			}
+			return &SexpArray{Val: slice, Env: env}, nil
+		case reflect.Map:
+			if rv.Type().Key().Kind() != reflect.String {
+				break
+			}
+			keys := []string{}
+			for _, k := range rv.MapKeys() {
+				keys = append(keys, k.String())
+			}
+			sort.Strings(keys)
+			pairs := []Sexp{}
+			for _, k := range keys {
+				ele, err := fillHashHelper(rv.MapIndex(reflect.ValueOf(k).Convert(rv.Type().Key())).Interface(), depth+1, env, preferSym)
+				if err != nil {
+					return SexpNull, err
+				}
+				pairs = append(pairs, env.MakeSymbol(k), ele)
+			}
+			return MakeHash(pairs, "hash", env)
+		case reflect.Struct:
+			// a struct value: convert through a pointer to a copy, so
+			// that registered struct types are recognised.
+			pv := reflect.New(rv.Type())
+			pv.Elem().Set(rv)
+			return fillHashHelper(pv.Interface(), depth+1, env, preferSym)
+		}
 	}
 
 	return SexpNull, nil
